@@ -132,10 +132,56 @@ func externKey(fn *ssa.Function) string {
 	return "extern:" + fn.String()
 }
 
+// defaultPureExtern: package-level functions of these standard packages do
+// not change anything in the program's heap that a contract can read (they
+// compute values, allocate, or write to files/loggers). Used only when there
+// is no explicit stub; every use is listed among the assumptions of the run.
+var purePkgs = map[string]bool{"strings": true, "strconv": true, "unicode": true, "unicode/utf8": true, "math": true, "errors": true,
+	"path": true, "path/filepath": true, "html": true, "time": true, "log": true, "fmt": true, "os": true, "io/ioutil": true, "bytes": true}
+
+func defaultPureExtern(fn *ssa.Function) bool {
+	if fn == nil || fn.Pkg == nil || fn.Signature.Recv() != nil {
+		return false
+	}
+	pth := fn.Pkg.Pkg.Path()
+	if !purePkgs[pth] {
+		return false
+	}
+	switch pth {
+	case "fmt":
+		// Sscan* write through their arguments
+		return !strings.HasPrefix(fn.Name(), "Sscan") && !strings.HasPrefix(fn.Name(), "Fscan") && !strings.HasPrefix(fn.Name(), "Scan")
+	case "os":
+		switch fn.Name() {
+		case "ReadFile", "Getenv", "LookupEnv", "Stat", "Remove", "RemoveAll", "MkdirAll", "WriteFile", "Hostname", "Getpid", "Getwd":
+			return true
+		}
+		return false
+	case "io/ioutil":
+		switch fn.Name() {
+		case "ReadFile", "ReadAll", "WriteFile", "TempDir", "TempFile", "ReadDir":
+			return true
+		}
+		return false
+	case "bytes":
+		switch fn.Name() {
+		case "Equal", "Compare", "Contains", "HasPrefix", "HasSuffix", "Index", "IndexByte", "TrimSpace", "Trim", "ToLower", "ToUpper", "Split", "Join", "Fields", "NewBuffer", "NewBufferString", "NewReader":
+			return true
+		}
+		return false
+	case "log":
+		return !strings.HasPrefix(fn.Name(), "Set")
+	}
+	return true
+}
+
 func (c *effCtx) ofExternal(fn *ssa.Function) *Effects {
 	e := newEffects()
 	if fc := c.P.Contracts.Funcs[externKey(fn)]; fc != nil {
 		return c.ofContract(fc, externKey(fn), fnTypes(fn)...)
+	}
+	if defaultPureExtern(fn) {
+		return e
 	}
 	e.All = true
 	e.Why = "external function without stub: " + fn.String()
